@@ -156,7 +156,8 @@ func addHpkeIntrinsics(m map[string]Intrinsic) {
 				r.seq++
 				out := cloneVals(s.pt)
 				if len(out) == 0 {
-					out = []Value{}
+					// AEAD Open appends to a nil destination: an empty plaintext is a nil slice
+					return tup(Value{K: KSlice}, nilErr()), true
 				}
 				return tup(mkSlice(out), nilErr()), true
 			}
